@@ -8,6 +8,7 @@ CONSTANTS
   Backup = "none"
   Scenes <- Single
   DispWrite = "every"
+  MatTable = "own"
 INVARIANT TypeOK
 INVARIANT OutsideUnchanged
 INVARIANT HistoryIndependent
